@@ -533,6 +533,9 @@ def run(ctx):
     ctx.notes["calls"] = dict(NEV)
     ctx.notes["thresholds"] = thresholds()
     ctx.notes["observed"] = dict(OBS)
+    ctx.notes["M7_calibration"] = ("quiet-start families 15 / 16 on MDCT-only streams, concealed level re pre-loss level after >= 1 s of sustained loss, unchanged tree: "
+                                   "thorough selection -42.25 dB (465 streams, 433 153 calls, 65 160 of them in a second burst after an earlier 3 / 10 / 26 s outage), "
+                                   "quick selection -43.9 dB; threshold M7 = -35 dB (7.25 dB margin); this run: see observed.quiet_start_mdct_*")
     if os.environ.get("C09_CAL") != "1" and (OBS["strong_fec_streams"] == 0 or OBS["n_clean_speech_after_400ms"] == 0):
         raise vf.Infra("vacuous replay: strong-FEC streams=%d clean speech-layer calls after 400 ms=%d" % (OBS["strong_fec_streams"], OBS["n_clean_speech_after_400ms"]))
     if os.environ.get("C09_CAL") != "1" and OBS["n_quiet_start_mdct_second_burst_after_1s"] == 0:
@@ -566,7 +569,8 @@ META = dict(
                 "incl. odd sizes, FEC with one / two packet durations, DTX packets as losses) x duration classes, on the model (DurationsExact, TimelineExact, "
                 "FecOnlyWhenPossible, GoodPacketsUnaffected, no deadlock) and, schedule by schedule, on the implementation; plus bursts up to 10 s. TLC judges every "
                 "recorded call: exact durations, finite output, final range of every received packet equal to the encoder's, level bounds during and after 400 ms of "
-                "loss, FEC-vs-concealment accuracy aggregated per stream, convergence to the twin one second after packets resume."),
+                "loss, FEC-vs-concealment accuracy aggregated per stream, convergence to the twin one second after packets resume; two sustained bursts (the earlier one "
+                "3 / 10 / 26 s) separated by received packets on MDCT-only streams with a quiet start: depth of the concealment floor (M7)."),
     level_note=("Trusted: TLC, Json module, the harness's RMS/error measurements. Level, accuracy and convergence clauses use calibrated thresholds with >= 6 dB margin and "
                 "conservative antecedents; they are statements about measurements on the explored streams, not proofs about the waveform. Stream configurations and "
                 "window positions are sampled (seeded), the fate patterns are not."),
